@@ -43,6 +43,8 @@ Observation
     model.write_log   list of (block numbers, applied: bool)
     model.on_state_change()  is called after every command that programmed persistent memory
     model.power_cycle()      clears RC / session key / EXT_AUTH / selected system
+Tampering
+    Tamper(model, fn) wraps a model as a man-in-the-middle (see class Tamper at the end of this file).
 Frames  `LEN CMD ...`; LEN counts itself; commands for a different IDm, with a wrong LEN or an unknown command code
 are not answered (None -> TimeoutError at the reader).  Errors in a Read/Write are answered `0C 07|09 IDm SF1 SF2`.
 Simplifications (documented): REG (0Eh) is a plain block (no subtraction semantics); timing (PMm) is not modelled;
@@ -603,3 +605,49 @@ def selftest():
     expect(m, "32 08 0102030405060708 010900 0280928091 01000000 00000000 00000000 00000000"
               "17c19e3b bdc3e8bd 00feff00 00000000", "0c 09 0102030405060708 02b2", "replayed MAC_A is refused")
     return bad
+
+
+class Tamper(object):
+    """Man-in-the-middle stage in front of a model: fn(n, command, genuine_response) -> response to deliver
+    (bytes, b"" or None for silence); n counts the commands seen since `enabled` was last set to True.
+    The genuine model still executes every command.  Everything else is delegated to the inner model."""
+
+    def __init__(self, inner, fn, enabled=True):
+        self.inner = inner
+        self.fn = fn
+        self.n = 0
+        self._enabled = enabled
+        self.on_state_change = lambda: None
+        inner.on_state_change = lambda: self.on_state_change()
+
+    @property
+    def enabled(self):
+        return self._enabled
+
+    @enabled.setter
+    def enabled(self, v):
+        self._enabled = v
+        self.n = 0
+
+    @property
+    def brty(self):
+        return self.inner.brty
+
+    any_bitrate = True
+
+    def sense(self, target):
+        return self.inner.sense(target)
+
+    def target(self):
+        return self.inner.target()
+
+    def power_cycle(self):
+        self.inner.power_cycle()
+
+    def command(self, data):
+        rsp = self.inner.command(data)
+        if not self._enabled:
+            return rsp
+        n = self.n
+        self.n += 1
+        return self.fn(n, bytes(data), rsp)
